@@ -217,7 +217,32 @@ pub fn hostile(r: &mut Rng, bits: usize) -> Vec<u64> {
             }
             canon(v, bits)
         }
-        19 | 20 => alphabet(r, bits),
+        19 => alphabet(r, bits),
+        20 => {
+            // zero low limbs AND zeros in the middle AND possibly zero high limbs
+            let mut v = alphabet(r, bits);
+            let lo = r.range(0, n.saturating_sub(1));
+            for x in v.iter_mut().take(lo) {
+                *x = 0;
+            }
+            if n >= lo + 3 {
+                let a = r.range(lo + 1, n - 2);
+                let b = r.range(a + 1, n - 1);
+                for x in &mut v[a..b] {
+                    *x = 0;
+                }
+                if v[lo] == 0 {
+                    v[lo] = alpha_limb(r) | 1;
+                }
+            }
+            if r.chance(1, 3) {
+                let hi = r.range(0, n / 2);
+                for x in v.iter_mut().rev().take(hi) {
+                    *x = 0;
+                }
+            }
+            canon(v, bits)
+        }
         _ => uniform(r, bits),
     }
 }
@@ -305,6 +330,21 @@ pub fn slice(r: &mut Rng, len: usize) -> Vec<u64> {
                 let b = r.range(a, len - 1);
                 for x in &mut v[a..b] {
                     *x = 0;
+                }
+            }
+            3 if len >= 4 => {
+                // zero low limbs and an interior zero limb
+                let lo = r.range(1, len - 3);
+                for x in v.iter_mut().take(lo) {
+                    *x = 0;
+                }
+                let a = r.range(lo + 1, len - 2);
+                v[a] = 0;
+                if v[lo] == 0 {
+                    v[lo] = alpha_limb(r) | 1;
+                }
+                if v[len - 1] == 0 {
+                    v[len - 1] = alpha_limb(r) | 1;
                 }
             }
             _ => {}
